@@ -179,9 +179,144 @@ def same(a, b, ty):
     return abs(a - b) <= tol * max(abs(a), abs(b), 1e-30)
 
 
+# directed scenarios: names that shadow each other, array parameters handed on, FUNCTION frames, DEFtype
+SCENARIOS = [
+    """DIM SHARED zg AS INTEGER
+DIM SHARED zh AS LONG
+CONST zc = 11
+CONST zonly = 5
+zg = 7: zh = 70
+zlocal% = 40
+PRINT zc + zg
+zshadow zlocal%, 5
+PRINT zc + zg + zonly
+zplain
+zshadow zlocal%, 6
+END
+SUB zshadow (zg AS INTEGER, zq&)
+CONST zc = 22
+STATIC zs
+zs = zs + 1.5
+PRINT zg
+PRINT zc
+PRINT zh
+PRINT zs
+PRINT zg + zc + zh + zs + zq& + zonly
+END SUB
+SUB zplain
+STATIC zs
+zs = zs + 100
+PRINT zc
+PRINT zg
+PRINT zs
+END SUB
+""",
+    """TYPE zt
+ a AS INTEGER
+ b AS LONG
+ c AS STRING
+END TYPE
+DIM zd(1 TO 2) AS LONG
+zn% = 3
+DIM zdyn(1 TO zn%) AS INTEGER
+DIM zrr(1 TO 2, 0 TO 2) AS zt
+zd(1) = 5: zd(2) = 6
+zdyn(1) = 11: zdyn(2) = 12: zdyn(3) = 13
+FOR i% = 1 TO 2: FOR j% = 0 TO 2
+zrr(i%, j%).a = i% * 10 + j%: zrr(i%, j%).b = 1000 + i% * 10 + j%: zrr(i%, j%).c = "s" + STR$(i% * 10 + j%)
+NEXT: NEXT
+PRINT zrr(1, 2).a
+PRINT zrr(2, 1).b
+PRINT zrr(2, 2).c
+PRINT zdyn(2) + zd(2)
+zbar zd(), zdyn(), zrr()
+END
+SUB zbar (dd() AS LONG, dy() AS INTEGER, rr() AS zt)
+PRINT dd(2)
+PRINT dy(3)
+PRINT rr(1, 2).b
+zbaz dd(), dy(), rr()
+END SUB
+SUB zbaz (d3() AS LONG, y3() AS INTEGER, r3() AS zt)
+PRINT d3(1) + d3(2)
+PRINT y3(2)
+PRINT r3(2, 1).a
+PRINT r3(1, 1).c
+END SUB
+""",
+    """DECLARE FUNCTION zf& (n&)
+zr& = zf&(3)
+PRINT zr&
+END
+FUNCTION zf& (n&)
+STATIC zcalls%
+zcalls% = zcalls% + 1
+zloc& = n& * 2
+PRINT n& + zloc& + zcalls%
+IF n& > 1 THEN zf& = zf&(n& - 1) + n& ELSE zf& = 1
+PRINT n&
+PRINT zloc& - zcalls%
+END FUNCTION
+""",
+    """DEFINT I-K
+DEFSTR S
+DEFDBL D
+ik = 7
+sname = "ab"
+dv = 1.5
+zother = 2.25
+PRINT ik
+PRINT sname + "!"
+PRINT dv * 3
+PRINT zother + ik
+zsub ik
+END
+SUB zsub (jp)
+kloc = jp + 1
+slocal = "q"
+PRINT jp + kloc
+PRINT slocal + slocal
+END SUB
+""",
+    """DIM SHARED zsa(1 TO 3) AS INTEGER
+DIM SHARED zsr AS STRING
+zsa(1) = 1: zsa(2) = 2: zsa(3) = 3
+zsr = "shared"
+za = 1.5
+zuse za, 4
+PRINT za
+END
+SUB zuse (za, zsa%)
+DIM zloc(1 TO 2) AS DOUBLE
+zloc(1) = .5: zloc(2) = 2.5
+PRINT za
+PRINT zsa%
+PRINT zloc(2) + za
+PRINT zsr + "x"
+za = za * 2
+PRINT za
+END SUB
+""",
+]
+
+
+def build_scenario(i):
+    text = SCENARIOS[i]
+    plist = []
+    for li, ln in enumerate(text.split('\n')):
+        m_ = re.fullmatch(r'PRINT (.+)', ln)
+        if m_:
+            plist.append({'line': li + 1, 'expr': m_.group(1), 'type': None, 'where': f'scenario{i}'})
+    return text, plist, {'arrays': [], 'records': [], 'scalars': []}
+
+
 def gen_cases(tier, seed):
     n = 60 if tier == 'quick' else 900
-    return [{'seed': seed * 100003 + i, 'k': i} for i in range(n)]
+    cs = [{'seed': seed * 100003 + i, 'k': i} for i in range(n)]
+    for i in range(len(SCENARIOS)):
+        for O in (0, 1, 2):
+            cs.append({'scenario': i, 'k': O, 'seed': i})
+    return cs
 
 
 def run_case(case):
@@ -189,7 +324,7 @@ def run_case(case):
           'builtin_probes': 0, 'after_finish_probes': 0}
     viol = []
     shapes = []
-    text, plist, names = build(case['seed'])
+    text, plist, names = build(case['seed']) if case.get('scenario') is None else build_scenario(case['scenario'])
     O = case['k'] % 3
     c = rt.compile_src(text, O, True)
     if c.status != 'ok':
